@@ -33,7 +33,7 @@ package asetypes
 //@   requires [size] bytesz(t) != -1 ==> len(bs) == bytesz(t)
 //@   modifies all ghost math/big.Int.$val
 //@   ensures [decimal-nonnil] err == nil && is(v, *Decimal) ==> payload(v) != 0
-//@   ensures [money-value] (t == MONEY || t == MONEYN) && len(bs) == 8 && isle(endian) && err == nil ==> is(v, *Decimal) && as(v, *Decimal).i != nil && as(v, *Decimal).i.$val == signed64(le32(bs, 0) * 4294967296 + le32(bs, 4))
+//@   ensures [money-value] (t == MONEY || t == MONEYN) && len(bs) == 8 && isle(endian) && err == nil ==> is(v, *Decimal) && as(v, *Decimal).i != nil && as(v, *Decimal).i.$val == signed64(le32b(bs, 0) * 4294967296 + le32b(bs, 4))
 
 //@ # ---------------------------------------------------------------------
 //@ # C16: Decimal construction and text conversion
@@ -79,7 +79,7 @@ package asetypes
 //@ # ---------------------------------------------------------------------
 //@ # C04 / C05: MONEY is the high 32-bit word followed by the low 32-bit word of the signed
 //@ # 64-bit count of 1/10000 units, each word in the byte order of the connection
-//@ pred le32(bs []byte, o int) { bs[o] + 256 * bs[o + 1] + 65536 * bs[o + 2] + 16777216 * bs[o + 3] }
+//@ pred le32b(bs []byte, o int) { bs[o] + 256 * bs[o + 1] + 65536 * bs[o + 2] + 16777216 * bs[o + 3] }
 //@ pred hi32(x int) { (x / 4294967296) % 4294967296 }
 //@ pred byteof(v int, k int) { (v / pow2(8 * k)) % 256 }
 //@ pred recomposed(v int) { byteof(v, 0) + 256 * byteof(v, 1) + 65536 * byteof(v, 2) + 16777216 * byteof(v, 3) }
